@@ -394,3 +394,8 @@ pub fn g_end() -> GStats {
         failed: G_FAILED.with(|c| c.get()),
     }
 }
+
+/// number of failed requests since `g_begin` (readable while accounting is active; does not allocate)
+pub fn g_stats_failed() -> u64 {
+    G_FAILED.with(|c| c.get())
+}
